@@ -28,6 +28,12 @@ func runScenario(c *core.Ctx, class, desc string, sc *Scenario, gt func(errClass
 	} else if gt != nil {
 		g = gt(obs.Nth(0).N, err)
 	}
+	// every case of C11, every fourth elsewhere, is repeated on an Options value that has a history
+	c.HistoryTick++
+	if g == "" && pan == nil && (c.Prop == "C11" || c.HistoryTick%4 == 0) {
+		g = sc.historyGT(obs.Nth(0).N, c.Prop != "C11")
+		c.Count("history", "compared")
+	}
 	c.Count("verdict", fmt.Sprintf("%d", obs.Nth(0).N))
 	c.Add(&core.Case{Class: class, Desc: desc, Entry: "ver", Input: sc.modelInput(), Impl: obs, GT: g, NonTrivial: nontrivial})
 }
@@ -50,7 +56,7 @@ func runScenarioImplOnly(c *core.Ctx, class, desc string, sc *Scenario, gt func(
 }
 
 func C11(c *core.Ctx) {
-	c.Rule = "honest worlds from the generator (fresh PKI and keys, random field contents, SVN vectors, TDX module versions 0..255, matching UpToDate level, CRLs listing unrelated serials) at the three option levels; QE auth data lengths 0..65535, trailing NUL, extra bytes; signatures with leading zero bytes in r / s; pairwise distinct verification times anywhere inside all validity windows; worlds whose documents, CRLs and PCK leaf end at staggered dates with each time-set entry one day before the end of its own artefact; the Intel sample quote under the embedded root at its reference time. non-trivial = every case (each is a full verification); distinct = distinct worlds x level"
+	c.Rule = "honest worlds from the generator (fresh PKI and keys, random field contents, SVN vectors, TDX module versions 0..255, matching UpToDate level, CRLs listing unrelated serials) at the three option levels; QE auth data lengths 0..65535, trailing NUL, extra bytes; signatures with leading zero bytes in r / s; pairwise distinct verification times anywhere inside all validity windows; worlds whose documents, CRLs and PCK leaf end at staggered dates with each time-set entry one day before the end of its own artefact; the Intel sample quote under the embedded root at its reference time; every case repeated on an Options value that was first used for an honest collateral+revocation call about another platform (the verdict must not change). non-trivial = every case (each is a full verification); distinct = distinct worlds x level"
 	r := c.Rng
 	levels := []struct {
 		name     string
